@@ -221,6 +221,63 @@ func main() {
 	}
 	out.Def("listAddAcceptsFrozen", "Bool", xlib.LeanBool(addFrozen))
 
+	// ---- the same case: what each branch returns, and where slices.Clip sits.  The branch for a pyFrozenList
+	// operand is the `if … operand.(pyFrozenList); ok { return … }`; the other return of the case is the plain one.
+	frozenRet, plainRet := "", ""
+	ast.Inspect(listOp.Body, func(n ast.Node) bool {
+		cc, ok := n.(*ast.CaseClause)
+		if !ok || len(cc.List) != 1 || o.Src(cc.List[0]) != "Add" {
+			return true
+		}
+		var walk func(n ast.Node, inFrozen bool)
+		walk = func(n ast.Node, inFrozen bool) {
+			ast.Inspect(n, func(m ast.Node) bool {
+				switch t := m.(type) {
+				case *ast.IfStmt:
+					fz := false
+					if t.Init != nil {
+						ast.Inspect(t.Init, func(k ast.Node) bool {
+							if ta, ok := k.(*ast.TypeAssertExpr); ok && ta.Type != nil && o.Src(ta.Type) == "pyFrozenList" {
+								fz = true
+							}
+							return true
+						})
+					}
+					if fz {
+						walk(t.Body, true)
+						if t.Else != nil {
+							walk(t.Else, inFrozen)
+						}
+						return false
+					}
+				case *ast.ReturnStmt:
+					if len(t.Results) == 1 {
+						if inFrozen {
+							frozenRet = o.Src(t.Results[0])
+						} else {
+							plainRet = o.Src(t.Results[0])
+						}
+					}
+				}
+				return true
+			})
+		}
+		for _, st := range cc.Body {
+			walk(st, false)
+		}
+		return false
+	})
+	if addFrozen && frozenRet == "" {
+		xlib.Unreadable("pyList.Operator Add: cannot find the return of the pyFrozenList branch")
+	}
+	if addFrozen && !strings.HasPrefix(frozenRet, "slices.Clip(append(") && !strings.HasPrefix(frozenRet, "append(slices.Clip(") {
+		// neither of the two shapes the model knows (clip the result / clip the first argument)
+		xlib.Unreadable("pyList.Operator Add, pyFrozenList branch returns %s", frozenRet)
+	}
+	out.Def("listAddFrozenExpr", "String", xlib.LeanStr(frozenRet))
+	out.Def("listAddPlainExpr", "String", xlib.LeanStr(plainRet))
+	out.Def("listAddFrozenClipsResult", "Bool", xlib.LeanBool(strings.HasPrefix(frozenRet, "slices.Clip(append(")))
+
 	// ---- type pyFrozenList struct { pyList }: embedding, and the methods the wrapper defines itself
 	embeds, sawType := false, false
 	for _, d := range o.AST.Decls {
